@@ -93,7 +93,10 @@ func runChild(b *buildOut, p *plan.Plan, wallLimit time.Duration) *plan.Result {
 	} else if err != nil {
 		why = "child failed: " + err.Error()
 	}
-	return &plan.Result{Prop: p.Prop, Seed: p.Seed, Infra: why + "\n" + tail(out.String(), 200000), Stats: map[string]int64{}}
+	if f := os.Getenv("VERIF_CHILD_OUT_FILE"); f != "" { // diagnostics: everything the child printed
+		os.WriteFile(f, out.Bytes(), 0o644)
+	}
+	return &plan.Result{Prop: p.Prop, Seed: p.Seed, Infra: why + "\n" + headTail(out.String(), 60000, 140000), Stats: map[string]int64{}}
 }
 
 func tail(s string, n int) string {
@@ -138,4 +141,13 @@ func raceViolations(res *plan.Result, out string) {
 			res.Violations = append(res.Violations, plan.Violation{Class: "C41/race/" + fn, Msg: "data race reported by the race detector:\n" + strings.TrimSpace(rep)})
 		}
 	}
+}
+
+// headTail keeps the beginning (the running goroutine comes first in a
+// SIGQUIT dump) and the end of a long output.
+func headTail(s string, h, t int) string {
+	if len(s) <= h+t {
+		return s
+	}
+	return s[:h] + "\n...\n" + s[len(s)-t:]
 }
